@@ -2,6 +2,7 @@
 (ad-hoc validator trees built from the runtime classes, and programs compiled by the real compiler), explores each with the
 jsdse engine (instrumented real runtime under Node, z3 for symbolic strings/numbers) and replays every violation on the
 type-stripped, un-instrumented runtime with the concrete witness before it is reported."""
+import re
 import os, sys, json, time, random, subprocess, hashlib, tempfile, multiprocessing as mp
 from lib.common import Report, Inconclusive, beffdrv, BUILD, REPO, VERIF, ENV, seed
 from checks import c13
@@ -46,6 +47,16 @@ FIXED_SPECS = [
     ('disc-hostile', {'t': 'disc', 'key': 'kind', 'mapping': {'constructor': O({'a': N}), 'toString': O({'b': S}), 'x': O({})}}, {}),
     ('nested-union', O({'u': {'t': 'anyof', 'xs': [O({'k': {'t': 'anyof', 'xs': [C('a'), N]}}), {'t': 'array', 'x': {'t': 'anyof', 'xs': [S, O({'z': B})]}}]}}), {}),
     ('any-never', O({'x': {'t': 'any'}, 'y': OPT({'t': 'never'})}), {}),
+    # constructs that the second batch of seeded changes needs in order to manifest
+    ('union-wide-tuples', {'t': 'anyof', 'xs': [{'t': 'tuple', 'prefix': [S] * 6, 'rest': None}, {'t': 'tuple', 'prefix': [N] * 6, 'rest': None}]}, {}),
+    ('obj-odd-keys', O({'user.name': S, 'a b': OPT(N), '2fa': OPT(B)}), {}),
+    ('tuple-undef-middle', {'t': 'tuple', 'prefix': [S, {'t': 'anyof', 'xs': [N, {'t': 'nullish', 'd': 'undefined'}]}, S], 'rest': None}, {}),
+    ('consts-falsy', {'t': 'consts', 'vs': ['a', 0, 1]}, {}),
+    ('consts-false', {'t': 'consts', 'vs': ['a', False]}, {}),
+    ('consts-num-str', {'t': 'anyof', 'xs': [{'t': 'consts', 'vs': ['200', '404', 'true']}, NULL]}, {}),
+    ('record-template-key', O({}, [{'key': {'t': 'regex', 'src': '^(x-)([\\s\\S]*)$', 'desc': '`x-${string}`'}, 'value': N}]), {}),
+    ('union-overlap-typedarray', {'t': 'anyof', 'xs': [O({'t': {'t': 'typedarray', 'name': 'Uint8Array'}}), O({'t': {'t': 'typedarray', 'name': 'Uint8Array'}, 'b': OPT(N)})]}, {}),
+    ('tuple-rest-objects', {'t': 'tuple', 'prefix': [S], 'rest': O({'x': N})}, {}),
 ]
 
 TS_PROGRAMS = [
@@ -379,7 +390,7 @@ def kinds_for(spec, defs, tier):
 
 def make_job(name, spec, defs, prop, tier, module=None, parser=None, hostile=False):
     keys = sorted(spec_keys(spec, defs))
-    extra = ['zz'] + (['__proto__', 'constructor', 'toString'] if hostile else [])
+    extra = ['zz'] + (['__proto__', 'constructor', 'toString', 'hasOwnProperty'] if hostile else [])
     extra = [k for k in extra if k not in keys]
     job = {'name': name, 'tier': tier, 'spec': spec, 'defs': defs, 'props': [prop],
            'options': [{}, {'disallowExtraProperties': True}, {'objectKeyOrder': 'sorted'}] if prop == 'C03' else ([{}, {'disallowExtraProperties': True}] if prop == 'C12' else [{}]),
@@ -530,7 +541,11 @@ def run(pid, tier, extra_jobs=None):
             if not reproduced:
                 rep.note_inconclusive(f'{job["name"]}: violation "{cls}" did not reproduce on the stripped runtime ({str(rr.get("harness_error", ""))[:120]}); witness {json.dumps(v.get("concrete"))[:200]}')
                 continue
-            key = f'{pid.lower()}:{cls}:{role(pid, cls, feats)}' + (f'@{job["name"]}' if job.get('module') else '')
+            rl = role(pid, cls, feats)
+            mm = re.match(r'^received "([^"]*)" is not the value at \[(?:.*, )?"([^"]*)"\]', v['what'])
+            if mm and mm.group(1) == mm.group(2) and 'index-sig' in feats:
+                rl = 'index-key-reported-as-received'     # the key of an index signature did not match: the error carries the key, at the path of the value
+            key = f'{pid.lower()}:{cls}:{rl}' + (f'@{job["name"]}' if job.get('module') else '')
             rep.violation(key, f'{job["name"]} ({"compiled" if job.get("module") else "ad-hoc"} validator {json.dumps(job["spec"])[:160]}): {v["what"]} for input {v["input"][:160]} '
                                f'(witness {json.dumps(v.get("concrete"))[:200]})', {'cmd': 'val', 'job': rj})
     agg['solver_s'] = round(agg['solver_s'], 2)
